@@ -76,13 +76,20 @@ def run(ctx):
 
 
 def _model(ctx, d, q):
-    # every tree (3 / 4 free blocks) + the 2-off/3-on reorganisation, every delivery order, a crash anywhere, every order afterwards
-    r = ctx.tlc_mc('Crash_MC', 'Crash_MC.cfg' if q else _cfg(ctx, d, 'Crash_MC.cfg', 'Crash_MCt.cfg', Trees='TreesT'),
-                   workers=4, timeout=7200, stage=d, coverage=not q)
-    if not q and r.get('zero_actions'):
-        raise vlib.Broken('vacuous: actions never taken: %s' % r['zero_actions'][:3])
+    # every tree (4 / 5 free blocks) + the 2-off/3-on reorganisation, every delivery order, a crash anywhere, every order afterwards
+    ctx.tlc_mc('Crash_MC', 'Crash_MC.cfg' if q else _cfg(ctx, d, 'Crash_MC.cfg', 'Crash_MCt.cfg', Trees='TreesT'),
+               workers=4, timeout=10800, stage=d)
+    if not q:
+        # anti-vacuity: every action of the mechanism is taken (only the FINAL coverage report counts: TLC also
+        # prints interim reports, in which actions of deeper levels still stand at 0)
+        r = ctx.tlc_mc('Crash_MC', _cfg(ctx, d, 'Crash_MC.cfg', 'Crash_MCcov.cfg', Trees='Trees3'), workers=2, timeout=7200,
+                       stage=d, coverage=True, count=False)
+        last = r['out'].split('The coverage statistics at')[-1]
+        zeros = [l for l in last.splitlines() if re.search(r'^<\w+ line .*>: 0:0\s*$', l)]
+        if zeros:
+            raise vlib.Broken('vacuous: actions never taken: %s' % zeros[:3])
     # two crashes
-    ctx.tlc_mc('Crash_MC', _cfg(ctx, d, 'Crash_MC.cfg', 'Crash_MC2.cfg', Trees='TreesL' if q else 'TreesQ', MaxCrash='2'),
+    ctx.tlc_mc('Crash_MC', _cfg(ctx, d, 'Crash_MC.cfg', 'Crash_MC2.cfg', Trees='Trees3' if q else 'TreesQ', MaxCrash='2'),
                workers=4, timeout=7200, stage=d)
     # liveness: continued delivery terminates with every block delivered (Converged then names the chain)
     ctx.tlc_mc('Crash_MC', 'Crash_Live.cfg' if q else _cfg(ctx, d, 'Crash_Live.cfg', 'Crash_LiveT.cfg', Trees='OneReorg'),
@@ -133,7 +140,10 @@ def _replay(ctx, b, d, q):
         allb += bs
     ctx.extra['crash_behaviours_per_history'] = per
     ctx.extra['crash_experiments_replayed'] = len(allb)
-    ctx.exhaustive = True
+    # every durable-write index of the linear-growth and reorganisation histories is run (the quantifier of C29);
+    # the additional histories may be subsampled (keep every k-th index), see crash_experiments_replayed
+    ctx.exhaustive = all(k is None for n, _, _, _, _, k, _ in hs if n in ('linear', 'reorg'))
+    ctx.extra['subsampled_histories'] = sorted(n for n, _, _, _, _, k, _ in hs if k)
     s = ctx.replay(b, allb, par=6, timeout=6 * 3600)
     return s
 
